@@ -193,6 +193,17 @@ def fam_storage_mip(T=3, thorough=False):
     return out
 
 
+def fam_storage_hold_start(T=4):
+    """maximum holding duration when the storage is not empty at the start, and with inflow"""
+    ids = Ids()
+    out = []
+    for st, mh, pr in itertools.product([dict(size=2, cin=1, cout=1, start=1, end=0), dict(size=3, cin=1, cout=2, start=2, end=0), dict(size=2, cin=1, cout=1, start=1, end=1),
+                                         dict(size=2, cin=1, cout=2, start=0, end=0, inflow=1)], (1, 2), ([1, 5, 2, 6], [4, 1, 1, 5])):
+        s = F.storage(T, 'n1', maxhold=mh, **st)
+        out.append(F.make_cfg(ids(), T, [slack(T, 'n1', pr[:T], lo=-3, hi=3), s]))
+    return out
+
+
 def fam_storage_hold_T(T=4):
     ids = Ids()
     out = []
@@ -214,6 +225,11 @@ def fam_storage_blocks(T=4, thorough=False, inflow=(0,)):
         kw = dict(st)
         kw['inflow'] = infl
         s = F.storage(TT, 'n1', blocks=blocks, block_size='2h', **kw)
+        out.append(F.make_cfg(ids(), TT, [slack(TT, 'n1', pr[:TT], lo=-3, hi=3), s]))
+    # blocks together with a maximum holding duration (start = end = 0: the storage is empty at every block boundary,
+    # so "consecutive steps" and "per block" readings of the duration agree)
+    for TT, mh, pr, infl in itertools.product((5, 7) if thorough else (5,), (1, 2), ([1, 5, 2, 6, 3, 1, 4], [4, 1, 3, 2, 5, 1, 2]), inflow):
+        s = F.storage(TT, 'n1', blocks={s for s in range(4, TT + 1, 3)}, block_size='3h', size=2, cin=1, cout=2, inflow=infl, maxhold=mh)
         out.append(F.make_cfg(ids(), TT, [slack(TT, 'n1', pr[:TT], lo=-3, hi=3), s]))
     return out
 
